@@ -141,13 +141,41 @@ def corpus(rng, n):
     return out
 
 
+def _save_defaults():
+    """the three process-wide defaults, read through the public getters (plus the private module attributes when the library has them:
+    putting the very same objects back also undoes a setter that replaced or rewrote them)"""
+    import hl7apy
+    pub = (hl7apy.get_default_version(), hl7apy.get_default_validation_level(), dict(hl7apy.get_default_encoding_chars('2.5')))
+    try:
+        priv = (hl7apy._DEFAULT_VERSION, hl7apy._DEFAULT_VALIDATION_LEVEL, hl7apy._DEFAULT_ENCODING_CHARS, dict(hl7apy._DEFAULT_ENCODING_CHARS))
+    except AttributeError:
+        priv = None
+    return pub, priv
+
+
+def _restore_defaults(saved):
+    import hl7apy
+    pub, priv = saved
+    if priv is not None:
+        try:
+            hl7apy._DEFAULT_VERSION, hl7apy._DEFAULT_VALIDATION_LEVEL, hl7apy._DEFAULT_ENCODING_CHARS = priv[:3]
+            if priv[2] != priv[3]:          # (a setter that rewrote the shared dict in place: put the content back for the next job of this worker)
+                priv[2].clear()
+                priv[2].update(priv[3])
+            return
+        except AttributeError:
+            pass
+    hl7apy.set_default_version(pub[0])
+    hl7apy.set_default_validation_level(pub[1])
+    hl7apy.set_default_encoding_chars(dict(pub[2]))
+
+
 def under(job):
     """(setting, calls): set the three process defaults, run the calls, restore"""
     import hl7apy
     from hl7apy.consts import VALIDATION_LEVEL as VL
     (dv, dstrict, dec), calls = job
-    old = (hl7apy._DEFAULT_VERSION, hl7apy._DEFAULT_VALIDATION_LEVEL, hl7apy._DEFAULT_ENCODING_CHARS)
-    old_content = dict(old[2])
+    saved = _save_defaults()
     try:
         hl7apy.set_default_version(dv)
         hl7apy.set_default_validation_level(VL.STRICT if dstrict else VL.TOLERANT)
@@ -155,10 +183,7 @@ def under(job):
             hl7apy.set_default_encoding_chars(dict(dec))
         return [call(c) for c in calls]
     finally:
-        hl7apy._DEFAULT_VERSION, hl7apy._DEFAULT_VALIDATION_LEVEL, hl7apy._DEFAULT_ENCODING_CHARS = old
-        if old[2] != old_content:          # (a setter that rewrote the shared dict in place: put the content back for the next job of this worker)
-            old[2].clear()
-            old[2].update(old_content)
+        _restore_defaults(saved)
 
 
 def existing_under(job):
@@ -168,12 +193,15 @@ def existing_under(job):
     from hl7apy.parser import parse_message, parse_segment
     from hl7apy.core import Message
     (a, b) = job
-    old = (hl7apy._DEFAULT_VERSION, hl7apy._DEFAULT_VALIDATION_LEVEL, hl7apy._DEFAULT_ENCODING_CHARS)
+    saved = _save_defaults()
 
     def setd(s):
         hl7apy.set_default_version(s[0])
         hl7apy.set_default_validation_level(VL.STRICT if s[1] else VL.TOLERANT)
-        hl7apy._DEFAULT_ENCODING_CHARS = old[2]
+        if saved[1] is not None:
+            hl7apy._DEFAULT_ENCODING_CHARS = saved[1][2]
+        else:
+            hl7apy.set_default_encoding_chars(dict(saved[0][2]))
         if s[2] is not None:
             hl7apy.set_default_encoding_chars(dict(s[2]))
 
@@ -203,7 +231,7 @@ def existing_under(job):
         after = obs([m, s, m2])
         return json.dumps([before, after], default=str)
     finally:
-        hl7apy._DEFAULT_VERSION, hl7apy._DEFAULT_VALIDATION_LEVEL, hl7apy._DEFAULT_ENCODING_CHARS = old
+        _restore_defaults(saved)
 
 
 def model_lines(calls, dstrict, dver):
